@@ -175,7 +175,12 @@ def check_result(acc, idx, c, kind, ds, spec, before, sub, origin, size):
             continue
         for k in want:
             if got[k] != want[k]:
-                g_rows = len(got[k][2]) if got[k][0] == "A" else len(next(iter(got[k][1].values()))[1])
+                gv = got[k][2] if got[k][0] == "A" else next(iter(got[k][1].values()))[1]
+                if not isinstance(gv, list):
+                    # a single selected row came back as a 0-d value: the row is not a row any more
+                    problems.append((f"rows-differ:{kind}:single-row-returned-as-0-d", {"group": gname, "variable": k, "expected_rows": int(keep.sum())}))
+                    break
+                g_rows = len(gv)
                 boundary = "boundary" if g_rows != int(keep.sum()) else "alignment-or-unit"
                 problems.append((f"rows-differ:{kind}:{boundary}", {"group": gname, "variable": k, "got_rows": g_rows, "expected_rows": int(keep.sum())}))
                 break
